@@ -35,6 +35,10 @@ SPECS = {
     "nullable2": 'grammar nm;\nOPT = /(ab)*/;\nXS = /x?y?/;\nstart = OPT XS;\n',
     "tab-newline": 'grammar t;\nTABS = /\\x09+/;\nNL = /\\x0A/;\nstart = TABS NL;\n',
 }
+# how many states one terminal owns is a parameter of the rendering too (lists of states are written in full): a keyword of n
+# letters next to an identifier pattern gives the identifier exactly n accepting states, for every n up to 33
+for _n in list(range(1, 34)):
+    SPECS["owns%d" % _n] = 'grammar o%d;\nID = /[a-z]+/;\nstart = "%s" ID;\n' % (_n, "".join(chr(ord("a") + (i * 7) % 26) for i in range(_n)))
 
 
 def gen_random_spec(rng, i):
